@@ -40,6 +40,62 @@ class Walker:
         # exactly that, name otherwise)
         self.calls_by_arg = cfg.get('calls_by_arg', {})
         self.out = []
+        # inlining of private helpers (see inline_target): the class body
+        # the function lives in, and the helpers being inlined right now
+        self.klass = None
+        self.module = None
+        self.inlining = []
+
+    # ----- private helpers: `self._helper(...)` whose body was extracted
+    # from the function (a refactoring that keeps every event where it was)
+    # is walked in place of the call.  Only helpers of the SAME class (or
+    # module-level private functions), not mapped in the configuration,
+    # without decorators other than staticmethod/classmethod, not recursive,
+    # and whose only `return` is their last statement, are inlined; for
+    # anything else the call is what it was before: no event.
+    def inline_target(self, e):
+        f = e.func
+        name = None
+        if isinstance(f, ast.Attribute) and isinstance(f.value, ast.Name) \
+                and f.value.id in ('self', 'cls') or \
+                isinstance(f, ast.Attribute) and self.klass is not None and \
+                isinstance(f.value, ast.Name) and \
+                f.value.id == self.klass.name:
+            name, scope = f.attr, (self.klass.body if self.klass else [])
+        elif isinstance(f, ast.Name):
+            name, scope = f.id, (self.module.body if self.module else [])
+        if not name or not name.startswith('_') or name.startswith('__') \
+                or name in self.inlining or len(self.inlining) >= 2:
+            return None
+        hits = [n for n in scope if isinstance(n, ast.FunctionDef)
+                and n.name == name]
+        if len(hits) != 1:
+            return None
+        fn = hits[0]
+        if any(_txt(d) not in ('staticmethod', 'classmethod')
+               for d in fn.decorator_list):
+            return None
+        rets = [n for n in ast.walk(fn) if isinstance(n, ast.Return)]
+        if any(isinstance(n, (ast.Yield, ast.YieldFrom)) for n in ast.walk(fn)):
+            return None
+        if rets and (len(rets) != 1 or fn.body[-1] is not rets[0]):
+            return None
+        return fn
+
+    def inline(self, e, fn):
+        for a in e.args:
+            self.expr(a)
+        for k in e.keywords:
+            self.expr(k.value)
+        self.inlining.append(fn.name)
+        try:
+            for st in fn.body:
+                if isinstance(st, ast.Return):
+                    self.expr(st.value)
+                else:
+                    self.stmt(st)
+        finally:
+            self.inlining.pop()
 
     def emit(self, *ev):
         self.out.append(ev)
@@ -93,6 +149,10 @@ class Walker:
             if f == 'len' and len(e.args) == 1 and \
                     _txt(e.args[0]) in self.cells:
                 self.emit('Rd', self.cells[_txt(e.args[0])])
+                return
+            helper = self.inline_target(e)
+            if helper is not None:
+                self.inline(e, helper)
                 return
         for ch in ast.iter_child_nodes(e):
             if isinstance(ch, ast.expr):
@@ -772,6 +832,17 @@ def decorator_events(tree, fn, cfg):
     return pre, post
 
 
+def class_of(tree, qual):
+    """ ClassDef node of `Class.method` qualnames (None for functions) """
+    parts = qual.split('.')
+    if len(parts) < 2:
+        return None
+    for n in tree.body:
+        if isinstance(n, ast.ClassDef) and n.name == parts[0]:
+            return n
+    return None
+
+
 def generate(repo):
     trees = {}
     failed = []
@@ -786,6 +857,8 @@ def generate(repo):
             fn = find_def(trees[rel], qual)
             pre, post = decorator_events(trees[rel], fn, cfg)
             w = Walker(cfg)
+            w.module = trees[rel]
+            w.klass = class_of(trees[rel], qual)
             w.block(fn.body)
             evs = pre + w.out + post
             js[name] = [list(e) for e in evs]
